@@ -354,6 +354,10 @@ impl Gen {
     }
 
     pub fn mode(&self, rng: &mut Rng) -> u32 {
+        if self.profile.hostile >= 10 && rng.chance(1, 10) {
+            // hostile profiles: modes with type bits, out of range, zero
+            return *rng.pick(&[0u32, 0o40700, 0o100644, 0o120777, 0o170000, 0o7777, 0o10000, u32::MAX, 0o777777]);
+        }
         if rng.chance(3, 4) {
             *rng.pick(MODES)
         } else {
@@ -738,6 +742,9 @@ impl Gen {
             },
             "chown" => {
                 let p = self.p_target(m, rng, None);
+                if self.profile.hostile >= 10 && rng.chance(1, 8) {
+                    return Op::Chown { p: self.arg(p, m, rng), uid: *rng.pick(&[0u32, u32::MAX, 65534]), gid: *rng.pick(&[0u32, u32::MAX]) };
+                }
                 Op::Chown { p: self.arg(p, m, rng), uid: rng.below(5) as u32 + 1000, gid: rng.below(5) as u32 + 2000 }
             },
             "chown_b" => {
